@@ -26,6 +26,8 @@ def main(argv):
     mod = importlib.import_module("rtm.props." + prop.lower())
     ctx = Ctx(prop, tier, seed, shard, nshards)
     units = {u.name: u for u in mod.UNITS}
+    from . import boundary
+    boundary.install_ctor_recorder()
     if hasattr(mod, "setup"):
         mod.setup(ctx)
     budget = float(os.environ.get("VERIF_SHARD_BUDGET_S", "0") or 0)
@@ -72,8 +74,10 @@ def main(argv):
                 ctx.run_case(u, i, params)
     if hasattr(mod, "teardown"):
         mod.teardown(ctx)
+    d = ctx.dump()
+    d["ctor_seen"], d["ctor_built"] = boundary.ctor_seen()
     with open(out, "w") as f:
-        json.dump(ctx.dump(), f)
+        json.dump(d, f)
     return 0
 
 
